@@ -175,8 +175,10 @@ class Report:
         }
         os.makedirs(EVIDENCE_DIR, exist_ok=True)
         evpath = os.path.join(EVIDENCE_DIR, f"{self.prop}.json")
-        with open(evpath, "w") as fd:
+        tmp = evpath + f".{os.getpid()}.tmp"
+        with open(tmp, "w") as fd:
             json.dump(ev, fd, indent=1, default=_json_default)
+        os.replace(tmp, evpath)
         ok_schema = validate_evidence(evpath)
         summ = {k: v for k, v in cov.items()
                 if isinstance(v, (int, float, bool))}
